@@ -119,6 +119,10 @@ def plan(ctx):
             j = ("isr", "mp", False, variant, order, blk, idx)
             if j not in jobs:
                 jobs.append(j)
+    if not quick:
+        # fourth order is the first order with a product S(2)*S(2) in S^(-1/2): the contraction prefactor of a space with two
+        # occupied indices (about 4 min)
+        jobs.append(("isr", "mp", False, "dip", 4, "hh,hh", "ij,kl"))
     return jobs
 
 
